@@ -89,6 +89,37 @@ def build(lib):
 
     reg('arange', lambda it, a, k: SArr((a[0],), lambda o: o[0], 'int') if len(a) == 1 else (_ for _ in ()).throw(Unsupported('np.arange(start, stop)')),
         "np.arange(n): the integers 0..n-1")
+    reg('isfinite', lambda it, a, k: (map_array(it, a[0], lambda x: z3.BoolVal(True), 'bool') if isinstance(a[0], SArr) else True),
+        "np.isfinite: True (floats are modelled as reals: no inf, no nan)")
+    def _repeat(it, a, k):
+        """np.repeat(a, r, axis): every element repeated r times along the axis (r consecutive copies)"""
+        arr = a[0] if isinstance(a[0], SArr) else as_array(it, a[0])
+        r = a[1]
+        axis = k.get('axis', a[2] if len(a) > 2 else None)
+        it.ctx.note_trusted("np.repeat(a, r, axis): out[..., u, ...] = a[..., u // r, ...] (consecutive copies)")
+        if axis is None:
+            if arr.rank != 1:
+                arr = L.ravel(it, arr)
+            axis = 0
+        if axis < 0:
+            axis += arr.rank
+        q, m = L.block_coords(it, arr.shape[axis], r, 'rep')
+        shape = tuple(z3.simplify(to_num(d) * to_num(r)) if i == axis else d for i, d in enumerate(arr.shape))
+        g = arr.get
+        return SArr(shape, lambda o: g(tuple(q(x) if i == axis else x for i, x in enumerate(o))), arr.dtype)
+    reg('repeat', _repeat)
+
+    def _tile(it, a, k):
+        """np.tile(a, r) for a rank-1 a and an integer r: r copies one after the other"""
+        arr = a[0] if isinstance(a[0], SArr) else as_array(it, a[0])
+        r = a[1]
+        if arr.rank != 1 or isinstance(r, (tuple, list)):
+            raise Unsupported("np.tile form")
+        it.ctx.note_trusted("np.tile(a, r): out[u] = a[u % len(a)]")
+        q, m = L.block_coords(it, r, arr.shape[0], 'tile')
+        g = arr.get
+        return SArr((z3.simplify(to_num(arr.shape[0]) * to_num(r)),), lambda o: g((m(o[0]),)), arr.dtype)
+    reg('tile', _tile)
     reg('kron', lambda it, a, k: L.np_kron(it, a[0], a[1]))
     reg('bmat', lambda it, a, k: L.np_bmat(it, a[0]))
 
